@@ -493,8 +493,11 @@ class X:
                     raise Unknown(f"fractional power of signed atom {a}")
         p = {}
         for kk, (pl, e) in s.p.items():
+            ck = pl.conj().key()
             if kk in NONNEG:
                 p[kk] = (pl, e * q)
+            elif ck != kk and ck in s.p and s.p[ck][1] == e:
+                p[kk] = (pl, e * q)          # pl * conj(pl) = |pl|^2 >= 0: the conjugate pair takes the root together
             elif Fr(e).denominator == 1 and e % 2 == 0:
                 ab = Atom("fn", "abs", (X.from_poly(pl),), "pos"); m[ab] = m.get(ab, 0) + e * q
             else:
@@ -507,7 +510,11 @@ class X:
         if s.isreal():
             try: return s.pow(2).pow(Fr(1, 2))
             except Unknown: pass
-        return (s * s.conj()).pow(Fr(1, 2))
+        zz = s * s.conj()
+        try: return zz.pow(Fr(1, 2))
+        except Unknown:
+            declare_nonneg(zz)          # z * conj(z) >= 0 by construction
+            return zz.pow(Fr(1, 2))
 
     def real(s): return (s + s.conj()) * X.const(Fr(1, 2))
 
